@@ -194,6 +194,28 @@ CHECKS = {
             'Trusted: VC generator, clang, z3/cvc5. Assumed: index lists distinct and in range; ranges ordered, no NaN in the clamped vector. '
             'Not decided (listed): mj_fwdActuation as a whole, transmissions, muscle curves.',
             'contracts + symbolic VC generation, z3 QF_FP (exact Float64) + LIA+arrays+quantifiers'),
+    'C46': ('DESIGN.md section 4 / C46',
+            'Deductive, exact over IEEE Float64, on statements sliced from the real python/mujoco/minimize.py (re-parsed every run) and '
+            'read per component: the candidate that least_squares passes to the residual inside the Armijo loop lies inside the bounds for '
+            'every start point, bounds, scale D in [1e-6,1e6] and every step the box QP may return; the start point is clipped into the bounds; '
+            'an accepted step (Armijo test not negative, model gradient along the step not positive) never increases the objective; and '
+            '(ast structure) x is only ever replaced by an evaluated candidate after the Armijo loop succeeded. Hence every residual '
+            'evaluation of the main loop and the returned point are inside the bounds and the trace objective is non-increasing.',
+            'Trusted: the ast slicer / scalar reading (vlib/pyfp.py), z3. Assumed: contract of mujoco.mju_boxQP (step inside its box, descent '
+            'direction), elementwise numpy semantics. jacobian_fd staying inside the bounds is covered by a Float32 stand-in in the quick tier '
+            '(not counted) and attempted exactly in Float64 in the thorough tier. Not decided: reaching the bounded global minimum.',
+            'verification conditions generated from the Python ast, z3 QF_FP (Float64 exact); ast structure scan'),
+    'C47': ('DESIGN.md section 4 / C47',
+            'Deductive proof over the reals by tracing: the real function objects pi_from_theta, pseudoinertia_from_pi and '
+            'theta_from_pseudoinertia are executed once on numpy object arrays of symbolic scalars (after a syntactic check that they are '
+            'value-independent straight-line code), and the resulting expressions are proved to satisfy: mass = exp(2 alpha) > 0; the '
+            'pseudo-inertia equals U U^T entrywise for the documented upper-triangular U, is positive definite (kernel of U^T trivial, '
+            'quadratic form a sum of squares); the rotational inertia is symmetric with positive diagonal and strict triangle '
+            'inequalities; the upper Cholesky factor is unique, and with it theta_from_pseudoinertia returns theta.',
+            'Trusted: the tracer (vlib/pytrace.py), numpy object-array semantics, z3 NRA. Assumed: doubles as reals, exp positive with log '
+            'its inverse, np.linalg.cholesky returns the positive-diagonal factor. Not decided: applying the parameters to a spec and '
+            'compiling (C++ compiler).',
+            'symbolic tracing of the real Python functions + z3 NRA'),
 }
 
 NA = {
